@@ -40,6 +40,25 @@ def _dt(dtype):
     return dtype
 
 
+def _cast(arr, dtype):
+    """dtype conversion of a symbolic array: a cast to a real floating type discards imaginary parts (numpy semantics, with a
+    ComplexWarning); a cast to an integer type truncates -- not expressible, so it needs concrete data"""
+    dtype = _dt(dtype)
+    if dtype is None or dtype is object:
+        return arr
+    try:
+        kind = np.dtype(dtype).kind
+    except TypeError:
+        return arr
+    if kind == 'f':
+        if builtins.any(isinstance(lift(v), C) for v in asobj(arr).ravel() if v is not None):
+            return emap(lambda v: lift(v).re if isinstance(lift(v), C) else v, arr)
+        return arr
+    if kind in 'iu' and builtins.any(isinstance(v, (R, C)) for v in asobj(arr).ravel()):
+        raise NeedsConcrete('cast of a symbolic value to an integer dtype')
+    return arr
+
+
 class NpProxy(object):
     """stands in for the `np` global of a repo module"""
 
@@ -129,19 +148,19 @@ class NpProxy(object):
     @_ov
     def array(self, a, dtype=None, **kw):
         if is_sym(a):
-            return SymArr(a).copy()
+            return _cast(SymArr(a).copy(), dtype)
         return np.array(a, dtype=_dt(dtype), **kw)
 
     @_ov
     def asarray(self, a, dtype=None, **kw):
         if is_sym(a):
-            return a if isinstance(a, SymArr) else SymArr(a)
+            return _cast(a if isinstance(a, SymArr) else SymArr(a), dtype)
         return np.asarray(a, dtype=_dt(dtype), **kw)
 
     @_ov
     def asanyarray(self, a, dtype=None, **kw):
         if is_sym(a):
-            return a if isinstance(a, SymArr) else SymArr(a)
+            return _cast(a if isinstance(a, SymArr) else SymArr(a), dtype)
         return np.asanyarray(a, dtype=_dt(dtype), **kw)
 
     @_ov
@@ -304,6 +323,28 @@ class NpProxy(object):
     amin = min
 
     @_ov
+    def sign(self, a, **kw):
+        if is_sym(a):
+            def one(v):
+                v = lift(v)
+                if isinstance(v, C):
+                    raise NeedsConcrete('np.sign of a symbolic complex value')
+                return ite(v > 0, R(1), ite(v < 0, R(-1), R(0)))
+            return emap(one, a)
+        return np.sign(a, **kw)
+
+    @_ov
+    def copysign(self, a, b, **kw):
+        if is_sym(a) or is_sym(b):
+            def one(u, v):
+                u, v = lift(u), lift(v)
+                if isinstance(u, C) or isinstance(v, C):
+                    raise NeedsConcrete('np.copysign of a symbolic complex value')
+                return ite(v >= 0, builtins.abs(u), -builtins.abs(u))     # A1: -0.0 is 0
+            return emap(one, a, b)
+        return np.copysign(a, b, **kw)
+
+    @_ov
     def minimum(self, a, b, **kw):
         if is_sym(a) or is_sym(b):
             return emap(lambda u, v: ite(lift(u) <= lift(v), u, v), a, b)
@@ -411,7 +452,15 @@ class NpProxy(object):
     @_ov
     def round(self, a, *k, **kw):
         if is_sym(a):
-            raise NeedsConcrete('np.round of a symbolic value')
+            # rounding to a number of decimals is an uninterpreted function of the value: nothing is known about it except
+            # congruence, so an identity that needs round(v) == v is refuted (and decided by the native replay)
+            d = k[0] if k else kw.get('decimals', 0)
+            def one(v):
+                v = lift(v)
+                if isinstance(v, C):
+                    return C(UF1('round%s' % d, v.re), UF1('round%s' % d, v.im))
+                return UF1('round%s' % d, v)
+            return emap(one, a)
         return np.round(a, *k, **kw)
 
     # ---- dependency contracts for reductions over the estimate table (exact index semantics; percentiles uninterpreted)
